@@ -134,9 +134,22 @@ class SimA(Simulator):
         interval = rng.choice([1.0, 2.0, 5.0])
         ops: list[list] = [["register", "E1"], ["connect", "E1"], ["uodinfo", "E1", interval], ["tags", "E1", None, ["PV1", "OUT1", "System State"], 0.5]]
         faults = rng.random() < 0.8
-        n_runs = rng.randint(1, 2)
+        n_runs = rng.choice([1, 1, 2, 2, 3])
         delivered = 4
+
+        def idle_reconnect():
+            # the engine loses its connection (or the aggregator restarts) while no run is active
+            kind = rng.choice(["reconnect", "reconnect", "reconnect", "graceful"])
+            if kind == "reconnect":
+                ops.extend([["disconnect", "E1"], ["register", "E1"], ["connect", "E1"], ["uodinfo", "E1", interval]])
+            else:
+                ops.extend([["restart", kind], ["register", "E1"], ["connect", "E1"], ["uodinfo", "E1", interval]])
+            if rng.random() < 0.5:
+                ops.append(["tags", "E1", None, ["PV1", "OUT1", "System State"], 0.5])
+
         for k in range(1, n_runs + 1):
+            if faults and k > 1 and rng.random() < 0.35:
+                idle_reconnect()
             ops.append(["start", "E1", k])
             if faults and rng.random() < 0.25:
                 ops.append(["dup", -1])                       # duplicated run-started
@@ -170,6 +183,10 @@ class SimA(Simulator):
                 ops.append(["dup", -1])                       # duplicated run-stopped
             if faults and rng.random() < 0.15:
                 ops.append(["tags", "E1", k, ["PV1"], 0.5])    # straggler for the stopped run
+        if faults and rng.random() < 0.3:
+            idle_reconnect()
+            if rng.random() < 0.5:
+                ops.append(["stop", "E1", n_runs])             # the stop notification of the last run is sent again
         return {"cfg": {"interval": interval}, "ops": ops}
 
     def _gen_errorlog(self, rng: random.Random, tier: str) -> dict:
@@ -219,6 +236,9 @@ class SimA(Simulator):
                 u = rng.choice(users)
                 conns.append((f"c{nconn}", u))
                 ops.append(["sub", f"c{nconn}", u])
+            elif r < 0.38:
+                c, u = rng.choice(conns)
+                ops.append(["sub", c, u])          # the front end re-issues its subscriptions on the open connection
             elif r < 0.6:
                 c, u = rng.choice(conns)
                 ops.append(["reg", rng.choice(["E1", "E2"]), u])
@@ -547,7 +567,10 @@ class SimA(Simulator):
         ff = w.aggregator.from_frontend
         if k == "sub":
             live[op[1]] = op[2]
-            await ff.user_subscribed_pubsub(op[1], [f"dead_man_switch/{op[2]}"])
+            topics = [f"dead_man_switch/{op[2]}"]
+            if step % 3 == 0:
+                topics = ["x/run_log", f"dead_man_switch/{op[2]}", "x/method"]     # one event may carry several topics
+            await ff.user_subscribed_pubsub(op[1], topics)
         elif k == "reg":
             e, u = op[1], op[2]
             if u not in live.values() or w.engine_ids.get(e) is None:
@@ -660,6 +683,11 @@ class SimA(Simulator):
                         res.add(prop, kind, f"{rr.get(rid, 0)}", step,
                                 f"run {rid}: {started[rid]} start / {stopped[rid]} stop notifications delivered, "
                                 f"{rr.get(rid, 0)} RecentRun row(s)")
+                        if prop == "C30" and any(o[0] in ("disconnect", "restart") for o in plan["ops"]):
+                            # C28's last clause: across reconnects and restarts the run is stored once when it stops
+                            res.add("C28", "C28.run_not_stored_once" + (ctx or restarted), f"{rr.get(rid, 0)}", step,
+                                    f"history with reconnect/restart; run {rid}: {started[rid]} start / {stopped[rid]} stop "
+                                    f"notifications delivered, {rr.get(rid, 0)} RecentRun row(s)")
                     if pl.get(rid, 0) != 1:
                         res.add("C30", "C30.plot_log_count" + ctx, f"{pl.get(rid, 0)}", step,
                                 f"run {rid}: {started[rid]} start notification(s) delivered, {pl.get(rid, 0)} PlotLog row(s)")
